@@ -885,6 +885,11 @@ func (p *parser) parseComprehension() (decl ast.Decl, ident *ast.Ident) {
 		defer un(trace(p, "Comprehension"))
 	}
 
+	// The body of a comprehension is parsed as a struct directly, without
+	// passing through parseUnaryExpr, so nested comprehensions need their
+	// own nesting guard to bound the parser's recursion depth.
+	defer decNestLevel(incNestLevel(p))
+
 	c := p.openComments()
 	defer func() { c.closeNode(p, decl) }()
 
@@ -1001,6 +1006,12 @@ func (p *parser) parseField() (decl ast.Decl) {
 	m.TokenPos = p.pos
 	p.expect(token.COLON)
 
+	// Each further label of a chain like "a: b: c: 1" nests a struct one level
+	// deeper in the syntax tree without any recursion in the parser, so count
+	// the chain elements against the nesting limit explicitly.
+	chained := 0
+	defer func() { p.nestLevel -= chained }()
+
 	for {
 		if l, ok := m.Label.(*ast.ListLit); ok && len(l.Elts) != 1 {
 			p.errf(l.Pos(), "square bracket must have exactly one element")
@@ -1017,6 +1028,8 @@ func (p *parser) parseField() (decl ast.Decl) {
 		field := &ast.Field{Label: label}
 		m.Value = &ast.StructLit{Elts: []ast.Decl{field}}
 		m = field
+		chained++
+		incNestLevel(p)
 
 		// Parse postfix alias if present
 		m.Alias = p.parsePostfixAlias()
